@@ -577,10 +577,12 @@ func (device *AbacoUDPReceiver) start() (err error) {
 		for {
 			select {
 			case _, ok := <-device.sendmore:
-				device.data <- queue
 				if !ok {
+					// sendmore is closed by stop(): nobody is waiting for data any more, and
+					// sending would block this goroutine forever.
 					return
 				}
+				device.data <- queue
 				queue = make([]*packets.Packet, 0, initialQueueCapacity)
 			default:
 				_, _, err := device.conn.ReadFrom(message)
